@@ -103,7 +103,8 @@ fn sha1_of(b: &[u8]) -> Vec<u8> {
     sha1::Sha1::digest(b).to_vec()
 }
 
-/// `None`: not an archive.  Members in directory order, `None` = cannot be extracted.
+/// `None`: not an archive.  Members in directory order, `None` = not a file (directory entry) or
+/// cannot be extracted.
 fn unzip(b: &[u8]) -> Option<Vec<Option<Vec<u8>>>> {
     let r = catch(|| {
         let mut z = zip::ZipArchive::new(Cursor::new(b.to_vec())).ok()?;
@@ -111,6 +112,7 @@ fn unzip(b: &[u8]) -> Option<Vec<Option<Vec<u8>>>> {
         for i in 0..z.len() {
             let m = match z.by_index(i) {
                 Err(_) => None,
+                Ok(f) if f.is_dir() => None,
                 Ok(mut f) => {
                     let mut v = vec![];
                     f.read_to_end(&mut v).ok().map(|_| v)
@@ -136,6 +138,76 @@ fn make_zip(files: &[(&str, &[u8])], deflate: bool) -> Vec<u8> {
         w.write_all(content).unwrap();
     }
     w.finish().unwrap().into_inner()
+}
+
+enum ZEntry<'a> {
+    Dir(&'a str),
+    File(&'a str, &'a [u8]),
+}
+
+fn make_zip_entries(entries: &[ZEntry], deflate: bool) -> Vec<u8> {
+    let mut w = zip::ZipWriter::new(Cursor::new(Vec::new()));
+    let method = if deflate { zip::CompressionMethod::Deflated } else { zip::CompressionMethod::Stored };
+    let opts = zip::write::FileOptions::default().compression_method(method);
+    for e in entries {
+        match e {
+            ZEntry::Dir(name) => w.add_directory(*name, opts).unwrap(),
+            ZEntry::File(name, content) => {
+                w.start_file(*name, opts).unwrap();
+                w.write_all(content).unwrap();
+            }
+        }
+    }
+    w.finish().unwrap().into_inner()
+}
+
+/// Patch the general purpose flags / compression method of the first member in both its local
+/// header and its central directory record (encrypted member, unsupported method).
+fn patch_first_member(z: &mut [u8], or_flags: u16, method: Option<u16>) {
+    if let Some(l) = z.windows(4).position(|w| w == [0x50, 0x4b, 0x03, 0x04]) {
+        let f = u16::from_le_bytes([z[l + 6], z[l + 7]]) | or_flags;
+        z[l + 6..l + 8].copy_from_slice(&f.to_le_bytes());
+        if let Some(m) = method {
+            z[l + 8..l + 10].copy_from_slice(&m.to_le_bytes());
+        }
+    }
+    if let Some(c) = z.windows(4).position(|w| w == [0x50, 0x4b, 0x01, 0x02]) {
+        let f = u16::from_le_bytes([z[c + 8], z[c + 9]]) | or_flags;
+        z[c + 8..c + 10].copy_from_slice(&f.to_le_bytes());
+        if let Some(m) = method {
+            z[c + 10..c + 12].copy_from_slice(&m.to_le_bytes());
+        }
+    }
+}
+
+/// Independent walk of the zip central directory (APPNOTE 4.3.12 / 4.3.16, no zip crate):
+/// (number of members, number of members that are FILES).  A member is a directory when its name
+/// ends with '/' or its external attributes carry the MS-DOS directory bit / a unix directory mode.
+fn central_directory_counts(z: &[u8]) -> Option<(usize, usize)> {
+    let eocd = z.windows(4).rposition(|w| w == [0x50, 0x4b, 0x05, 0x06])?;
+    if z.len() < eocd + 22 {
+        return None;
+    }
+    let total = u16::from_le_bytes([z[eocd + 10], z[eocd + 11]]) as usize;
+    let mut at = u32::from_le_bytes(z[eocd + 16..eocd + 20].try_into().ok()?) as usize;
+    let (mut members, mut files) = (0, 0);
+    for _ in 0..total {
+        if z.len() < at + 46 || z[at..at + 4] != [0x50, 0x4b, 0x01, 0x02] {
+            return None;
+        }
+        let name_len = u16::from_le_bytes([z[at + 28], z[at + 29]]) as usize;
+        let extra_len = u16::from_le_bytes([z[at + 30], z[at + 31]]) as usize;
+        let comment_len = u16::from_le_bytes([z[at + 32], z[at + 33]]) as usize;
+        let ext = u32::from_le_bytes(z[at + 38..at + 42].try_into().ok()?);
+        let name = z.get(at + 46..at + 46 + name_len)?;
+        let is_dir = name.last() == Some(&b'/') || ext & 0x10 != 0 || (ext >> 16) & 0o170000 == 0o040000;
+        members += 1;
+        if !is_dir {
+            files += 1;
+        }
+        at += 46 + name_len + extra_len + comment_len;
+    }
+    Some((members, files))
 }
 
 /// A one-member archive whose central directory advertises (via a zip64 extra field) an
@@ -208,7 +280,7 @@ fn decode_manifest(case: &Case) -> Result<Vec<Entry>, ()> {
 /// The reason string classifies the failure for the input distribution.
 /// `tolerant`: entries with a reserved file type are skipped instead of failing the retrieval
 /// (the property text does not decide this; the implementation fails, see `props/C14.json`).
-fn expected(case: &Case, tolerant: bool) -> Result<Vec<u8>, &'static str> {
+fn expected(case: &Case, tolerant: bool) -> Result<(Vec<u8>, bool), &'static str> {
     let entries = decode_manifest(case).map_err(|_| "malformed-table")?;
     // an entry with a reserved file type makes the device non conforming
     if !tolerant && entries.iter().any(|e| e.file_type > 1) {
@@ -233,17 +305,45 @@ fn expected(case: &Case, tolerant: bool) -> Result<Vec<u8>, &'static str> {
     if hash != [0u8; 20] && sha1_of(file) != hash {
         return Err("hash-mismatch");
     }
+    // second component: the stored bytes are valid UTF-8 (the returned text is identical to them)
     if e.compression == 0 {
-        return Ok(lossy(file));
+        return Ok((lossy(file), std::str::from_utf8(file).is_ok()));
     }
     match unzip(file) {
         None => Err("corrupt-archive"),
-        Some(m) if m.len() != 1 => Err("archive-not-one-file"),
-        Some(m) => match &m[0] {
-            Some(x) => Ok(lossy(x)),
-            None => Err("corrupt-member"),
-        },
+        Some(m) => {
+            // "exactly one file": counted on the central directory itself, directories are not files
+            let (members, files) = central_directory_counts(file).unwrap_or((m.len(), m.iter().filter(|x| x.is_some()).count().max((m.len() == 1) as usize)));
+            if files != 1 {
+                return Err("archive-not-one-file");
+            }
+            if members != 1 {
+                // one file next to directory entries: the property text ("exactly one file") admits
+                // the document, the implementation refuses every archive with more than one member
+                return Err("archive-one-file-among-directories");
+            }
+            match m.first() {
+                Some(Some(x)) => Ok((lossy(x), std::str::from_utf8(x).is_ok())),
+                _ => Err("corrupt-member"),
+            }
+        }
     }
+}
+
+/// For the class "one file among directory entries": the text of that one file.
+fn single_file_text(case: &Case) -> Option<Vec<u8>> {
+    let entries = decode_manifest(case).ok()?;
+    let mut best: Option<&Entry> = None;
+    for e in entries.iter().filter(|e| e.file_type == 0) {
+        match best {
+            Some(b) if e.version <= b.version => {}
+            _ => best = Some(e),
+        }
+    }
+    let (address, size, _) = best?.location?;
+    let m = unzip(case.peek(address, size)?)?;
+    let files: Vec<&Vec<u8>> = m.iter().flatten().collect();
+    (files.len() == 1).then(|| lossy(files[0]))
 }
 
 // ---------------------------------------------------------------------------------------------
@@ -310,7 +410,19 @@ struct OpObs {
     log: Vec<Acc>,
 }
 
+/// Cases that could take the whole process down (absurd advertised sizes: an implementation that
+/// allocates them aborts) are written to disk first, so that the failing input survives an abort:
+/// `<cwd>/c14-current-case.json` is a replay file (`--replay`).
+fn persist_if_risky(case: &Case) {
+    let risky = decode_manifest(case).map_or(false, |es| es.iter().any(|e| e.location.map_or(false, |l| l.1 >= 1 << 31)));
+    if risky {
+        let _ = std::fs::write("c14-current-case.json",
+            serde_json::to_string(&json!({"property": "C14", "kind": "case in flight when the harness died", "replay": case.to_json()})).unwrap());
+    }
+}
+
 fn run_impl(case: &Case) -> Result<(String, Vec<OpObs>), String> {
+    persist_if_risky(case);
     let usb = FakeUsb::new(case.regions.clone());
     let mut h = open_handle(&usb)?;
     let mut toks = vec![];
@@ -383,6 +495,7 @@ fn run_case(rep: &mut Report, case: &Case, src: &str) -> usize {
         }
     }
     rep.count(&match &exp {
+        Ok((_, false)) => "expect:ok(non-utf8 content: lossy text or error)".to_string(),
         Ok(_) => "expect:ok".to_string(),
         Err(why) => format!("expect:fail:{why}"),
     });
@@ -416,20 +529,28 @@ fn run_case(rep: &mut Report, case: &Case, src: &str) -> usize {
                         rep.violation(json!({"check": "fault_reported"}), "a device command failed but genapi returned Ok", case.to_json());
                     }
                     (Ok(Err(_)), _) if faulted => {}
-                    (Ok(Ok(text)), Ok(want)) => {
+                    (Ok(Ok(text)), Ok((want, _))) => {
                         if text != want {
                             rep.violation(json!({"check": "returns_stored_text"}),
                                 &format!("returned text ({} bytes) differs from the stored file of the newest device XML entry ({} bytes)", text.len(), want.len()),
                                 case.to_json());
                         }
                     }
-                    (Ok(Ok(text)), Err("reserved-file-type")) if exp_tolerant.as_ref().ok() == Some(text) => {
+                    (Ok(Ok(text)), Err("reserved-file-type")) if exp_tolerant.as_ref().ok().map(|x| &x.0) == Some(text) => {
                         // a tolerant implementation (skipping unknown file types) is acceptable
                         rep.count("reserved-file-type:skipped-by-implementation");
+                    }
+                    (Ok(Ok(text)), Err("archive-one-file-among-directories")) if single_file_text(case).as_ref() == Some(text) => {
+                        rep.count("archive-one-file-among-directories:accepted-by-implementation");
                     }
                     (Ok(Ok(text)), Err(why)) => {
                         rep.violation(json!({"check": "must_fail", "input": why}),
                             &format!("genapi returned a {} byte document although the input is {why}", text.len()), case.to_json());
+                    }
+                    (Ok(Err(_)), Ok((_, false))) => {
+                        // content that is not valid UTF-8 cannot be returned as identical text: an
+                        // error is as acceptable as the lossy rendition (see props/C14.json)
+                        rep.count("non-utf8:refused-by-implementation");
                     }
                     (Ok(Err(e)), Ok(_)) => {
                         rep.violation(json!({"check": "spurious_error"}),
@@ -463,6 +584,9 @@ fn xml_text(rng: &mut Rng, len: usize) -> Vec<u8> {
             _ => b'a' + rng.below(26) as u8,
         };
         v.push(c);
+    }
+    if len >= 3 && rng.chance(1, 15) {
+        v[..3].copy_from_slice(&[0xef, 0xbb, 0xbf]); // UTF-8 byte order mark
     }
     if len > 0 && rng.chance(1, 12) {
         // a multi-byte UTF-8 character, and rarely an invalid byte (from_utf8_lossy is exercised)
@@ -544,14 +668,29 @@ fn gen_case(rng: &mut Rng, thorough: bool) -> Case {
             _ => 2 + rng.below(62) as u32,
         };
         let mut stored = if comp == 1 {
-            match rng.below(12) {
+            match rng.below(17) {
                 0 => make_zip(&[], true),
                 1 => make_zip(&[("a.xml", &text[..]), ("b.xml", b"<x/>")], rng.bool()),
                 // several members sharing ONE name (a name-keyed view of the archive sees one file)
-                10 => make_zip(&[("device.xml", &text[..]), ("device.xml", b"<other/>")], rng.bool()),
-                11 => make_zip(&[("device.xml", b"<other/>"), ("device.xml", &text[..]), ("device.xml", b"<third/>")], rng.bool()),
+                15 => make_zip(&[("device.xml", &text[..]), ("device.xml", b"<other/>")], rng.bool()),
+                16 => make_zip(&[("device.xml", b"<other/>"), ("device.xml", &text[..]), ("device.xml", b"<third/>")], rng.bool()),
                 2 => text.clone(), // flagged zip but plain text
                 3 if text.len() < 3000 => make_zip_lying_size(&text),
+                // directory entries: no file at all / one file next to a directory
+                4 => make_zip_entries(&[ZEntry::Dir("xml/")], rng.bool()),
+                5 => make_zip_entries(&[ZEntry::Dir("xml/"), ZEntry::File("xml/device.xml", &text[..])], rng.bool()),
+                6 => make_zip_entries(&[ZEntry::File("device.xml", &text[..]), ZEntry::Dir("empty/")], rng.bool()),
+                7 => make_zip_entries(&[ZEntry::Dir("a/"), ZEntry::Dir("b/")], rng.bool()),
+                // encrypted member / compression method this build cannot inflate
+                8 => {
+                    let mut z = make_zip(&[("device.xml", &text[..])], true);
+                    if rng.bool() {
+                        patch_first_member(&mut z, 1, None);
+                    } else {
+                        patch_first_member(&mut z, 0, Some(*rng.pick(&[12u16, 14, 93, 99, 1])));
+                    }
+                    z
+                }
                 _ => make_zip(&[("device.xml", &text[..])], !rng.chance(1, 4)),
             }
         } else if rng.chance(1, 25) {
@@ -766,25 +905,37 @@ fn main() {
         run_case(&mut rep, &c, "beyond-one-growth-step");
     }
 
-    // a file whose first growth step ends exactly at 2^64 while the advertised size goes on:
-    // the address of the second step leaves the address space (must be an error; bytes that a
-    // wrapped address would find at address 0 are mapped so that a wrong document would surface)
-    {
-        let text = xml_text(&mut rng, step);
-        let file_addr = (u64::MAX - step as u64).wrapping_add(1);
-        let mt_addr = MT_SLOT;
+    // files whose k-th growth step ends exactly at 2^64 while the advertised size goes on: the
+    // address of the next step leaves the address space (must be an error; bytes that a wrapped
+    // address would find at address 0 are mapped so that a wrong document would surface).
+    // Randomised: number of full steps before the boundary, excess, acknowledge length, hash.
+    for _ in 0..(if args.thorough() { 6 } else { 2 }) {
+        let k = 1 + rng.below(2) as usize;
+        let len = k * step;
+        let text = xml_text(&mut rng, len);
+        let file_addr = (u64::MAX - len as u64).wrapping_add(1);
+        let mt_addr = MT_SLOT + 8 * rng.below(32);
+        let excess = 1 + rng.below(0x100);
+        let max_ack = *rng.pick(&[4096u32, 65548, u32::MAX]);
+        let mut hash = [0u8; 20];
+        if rng.bool() {
+            // hash of what a wrapping implementation would assemble
+            let mut wrapped = text.clone();
+            wrapped.extend(std::iter::repeat(b'z').take(excess as usize));
+            hash.copy_from_slice(&sha1_of(&wrapped));
+        }
         let mut mt = 1u64.to_le_bytes().to_vec();
-        mt.extend_from_slice(&entry_bytes(&EntrySpec { version: 0x0102_0003, info: 0, addr: file_addr, size: step as u64 + 0x80, hash: [0u8; 20] }));
+        mt.extend_from_slice(&entry_bytes(&EntrySpec { version: 0x0102_0003, info: 0, addr: file_addr, size: len as u64 + excess, hash }));
         let c = Case {
             regions: vec![
-                Region { base: 0, data: xml_text(&mut rng, 0x100) },
+                Region { base: 0, data: vec![b'z'; 0x100] },
                 abrm_region(0, 200, mt_addr, 0x2_0000),
-                sbrm_region(0x2_0000, 1, 1024, 65548, 0x3_0000),
+                sbrm_region(0x2_0000, 1, 1024, max_ack, 0x3_0000),
                 Region { base: mt_addr, data: mt },
                 Region { base: file_addr, data: text },
             ],
             mt_addr,
-            max_ack: 65548,
+            max_ack,
             ops: vec![None],
         };
         run_case(&mut rep, &c, "growth-step-leaves-address-space");
